@@ -322,6 +322,79 @@ theorem fatn_desc_all (hn : PlainKey name) (hs : ∀ s ∈ subs, PlainKey s) :
 
 end tail
 
+/-! ## the tokens of `'//*/name/s1/…/sk'` -/
+
+/-- `'/'.join(k :: r)` -/
+def joinSl : Str → List Str → Str
+  | k, [] => k
+  | k, s :: r => k ++ '/' :: joinSl s r
+
+theorem joinSl_head {k : Str} (hk : PlainKey k) (r : List Str) : ∃ d t, joinSl k r = d :: t ∧ d ≠ '/' := by
+  obtain ⟨c, u, rfl, hc1, _⟩ := PlainKey.head_ne hk
+  cases r with
+  | nil => exact ⟨c, u, rfl, hc1⟩
+  | cons s r => exact ⟨c, u ++ '/' :: joinSl s r, rfl, hc1⟩
+
+theorem joinSl_noLB : ∀ (r : List Str) (k : Str), PlainKey k → (∀ s ∈ r, PlainKey s) → ∀ x ∈ joinSl k r, x ≠ '['
+  | [], k, hk, _, x, hx => PlainKey.noLB hk x hx
+  | s :: r, k, hk, hr, x, hx => by
+    simp only [joinSl, List.mem_append, List.mem_cons] at hx
+    rcases hx with hx | rfl | hx
+    · exact PlainKey.noLB hk x hx
+    · decide
+    · exact joinSl_noLB r s (hr s (by simp)) (fun y hy => hr y (by simp [hy])) x hx
+
+theorem joinSl_replSS : ∀ (r : List Str) (k : Str), PlainKey k → (∀ s ∈ r, PlainKey s) → replSS (joinSl k r) = joinSl k r
+  | [], k, hk, _ => by
+    have h4 := replSS_append_noSlash k [] hk.noSlash
+    simpa only [List.append_nil, replSS, joinSl] using h4
+  | s :: r, k, hk, hr => by
+    have hs := hr s (by simp)
+    obtain ⟨d, t, hdt, hd⟩ := joinSl_head hs r
+    have ih := joinSl_replSS r s hs (fun y hy => hr y (by simp [hy]))
+    simp only [joinSl]
+    rw [replSS_append_noSlash k _ hk.noSlash, hdt, replSS_slash_ne d t hd, ← hdt, ih]
+
+theorem joinSl_split : ∀ (r : List Str) (k : Str), PlainKey k → (∀ s ∈ r, PlainKey s) → splitChar '/' (joinSl k r) = k :: r
+  | [], k, hk, _ => splitChar_no_delim '/' k hk.noSlash
+  | s :: r, k, hk, hr => by
+    simp only [joinSl]
+    rw [splitChar_append '/' k _ hk.noSlash, joinSl_split r s (hr s (by simp)) (fun y hy => hr y (by simp [hy]))]
+
+theorem fatn_tokens {name : Str} {subs : List Str} (hn : PlainKey name) (hs : ∀ s ∈ subs, PlainKey s) :
+    tokens (['/', '/', '*', '/'] ++ joinSl name subs) = fatnT name subs := by
+  have hnorm : normExpr (['/', '/', '*', '/'] ++ joinSl name subs) = '*' :: '/' :: joinSl name subs := by
+    simp [normExpr, startsWith]
+  have hins : insLB ('*' :: '/' :: joinSl name subs) = '*' :: '/' :: joinSl name subs :=
+    insLB_id _ (by
+      intro x hx
+      simp only [List.mem_cons] at hx
+      rcases hx with rfl | rfl | hx
+      · decide
+      · decide
+      · exact joinSl_noLB subs name hn hs x hx)
+  obtain ⟨d, t, hdt, hd⟩ := joinSl_head hn subs
+  have hrep : replSS ('*' :: '/' :: joinSl name subs) = '*' :: '/' :: joinSl name subs := by
+    rw [replSS_cons_ne '*' _ (by decide), hdt, replSS_slash_ne d t hd, ← hdt, joinSl_replSS subs name hn hs]
+  have hsplit : splitChar '/' ('*' :: '/' :: joinSl name subs) = ['*'] :: name :: subs := by
+    have e1 := splitChar_append '/' ['*'] (joinSl name subs) (by intro x hx; simp at hx; subst hx; decide)
+    simp only [List.cons_append, List.nil_append] at e1
+    rw [e1, joinSl_split subs name hn hs]
+  unfold tokens
+  rw [hnorm, hins, hrep, hsplit]
+  have hne : ∀ s ∈ name :: subs, (!s.isEmpty) = true := by
+    intro s hs'
+    have hp : PlainKey s := by
+      rcases List.mem_cons.1 hs' with rfl | h
+      · exact hn
+      · exact hs s h
+    cases s with
+    | nil => exact absurd rfl hp.ne
+    | cons _ _ => rfl
+  show List.filter _ (['*'] :: name :: subs) = _
+  rw [List.filter_cons_of_pos (by rfl), List.filter_eq_self.2 hne]
+  rfl
+
 /-! ## top level -/
 
 theorem fatn_tail_distinct : ∀ (subs : List Str) (l : List (Pos × Val)), FadDistinct l → FadDistinct (tailN subs l)
